@@ -13,6 +13,9 @@ ops:   st <s> <t>            header
                              capacity closure number k (`Tbx.Flow.genCap`); the e lines then carry raw payloads
        ub <B>                optional header: the solvers are run with `run_with_upper_bound(Arc(AtomicI32(B)))`
                              instead of `run()` (family `bounded`)
+       rr <k>                optional header: after the observed run the same object is run k more times
+                             (run / run_with_upper_bound(i32::MAX) alternating) and observed again (flow2 / assign2):
+                             the property determines these exactly as after the first run
        e <u> <v> <cap>       one input edge per line, in input order
 
 Domain (else `J skip`): non-empty list, capacities (after the closure) ≥ 0, s ≠ t both nodes, and the two
@@ -50,6 +53,7 @@ structure Inp where
   edges : List E            -- as written on the e lines (payloads when `gen` is present)
   gen : Option Nat := none
   ub : Option Int := none
+  rr : Nat := 0
 deriving Inhabited
 
 def parseInp (ops : Array String) : Option Inp := Id.run do
@@ -59,8 +63,13 @@ def parseInp (ops : Array String) : Option Inp := Id.run do
   let mut gen : Option Nat := none
   let mut es : Array E := #[]
   let mut ub : Option Int := none
+  let mut rr : Nat := 0
   for l in ops do
     match words l with
+    | ["rr", k] =>
+      match k.toNat? with
+      | some k => rr := k
+      | none => return none
     | ["ub", b] =>
       match parseInt? b with
       | some b => ub := some b
@@ -78,7 +87,7 @@ def parseInp (ops : Array String) : Option Inp := Id.run do
       | some u, some v, some c => es := es.push (u, v, c)
       | _, _, _ => return none
     | _ => return none
-  if haveSt then return some { s := s, t := t, edges := es.toList, gen := gen, ub := ub } else return none
+  if haveSt then return some { s := s, t := t, edges := es.toList, gen := gen, ub := ub, rr := rr } else return none
 
 def bit (b : Bool) : String := if b then "1" else "0"
 def bitsS (bs : List Bool) : String := String.join (bs.map bit)
@@ -129,6 +138,7 @@ structure RunObs where
   stuck  : Bool
   bound  : Option Int := none    -- value of the shared bound after a bounded run
   free   : Bool := false         -- flow/assign lines are class F (bounded Dinic run with bound < max flow)
+  rerun  : Bool := false         -- the case runs the object again: flow2/assign2 repeat flow/assign
 deriving Inhabited
 
 /-- the capacity closure of the case (identity for `from_edge_list` cases) -/
@@ -182,9 +192,13 @@ def renderObs (withPre withAssign : Bool) (solver : String) (o : RunObs) : Array
   let a := a.push s!"{cls} {solver} flow={o.flow}"
   let a := if withAssign then a.push s!"{cls} {solver} assign={o.assign}" else a
   let a := a.push s!"F {solver} res={triplesS o.res}"
-  match o.bound with
-  | some b => a.push s!"F {solver} bound={b}"
-  | none => a
+  let a := match o.bound with
+    | some b => a.push s!"F {solver} bound={b}"
+    | none => a
+  if o.rerun then
+    let a := a.push s!"D {solver} flow2={o.flow}"
+    if withAssign then a.push s!"D {solver} assign2={o.assign}" else a
+  else a
 
 /-- is there a phase with two augmentations whose paths (source … target) share their first edge? -/
 def sharedPrefix (trace : List (Nat × List Nat × Int)) : Bool :=
@@ -232,8 +246,9 @@ def handle (withPre withAssign : Bool) (c : Case) : CaseOut := Id.run do
   let odB := match inp.ub with
     | some B => runDinicBounded inp fuel B trueFlow
     | none => od
-  let oeB := { oe with bound := inp.ub }
-  let offB := { off with bound := inp.ub }
+  let odB := { odB with rerun := inp.rr > 0 }
+  let oeB := { oe with bound := inp.ub, rerun := inp.rr > 0 }
+  let offB := { off with bound := inp.ub, rerun := inp.rr > 0 }
   let model := renderObs withPre withAssign "dinic" odB ++ renderObs withPre withAssign "ek" oeB ++
                renderObs withPre withAssign "ff" offB
   let modelStuck := od.stuck || oe.stuck || off.stuck || odB.stuck
@@ -278,6 +293,19 @@ def handle (withPre withAssign : Bool) (c : Case) : CaseOut := Id.run do
     let some res := (obsField c.impl "F" solver "res").bind parseTriples
       | verdict := .fail s!"{solver}: no residual graph observation"
     flows := flowS :: flows
+    if inp.rr > 0 then
+      match obsField c.impl "D" solver "flow2" with
+      | some f2 =>
+        if f2 != flowS then
+          verdict := .fail s!"{solver}: after {inp.rr} more run(s) of the same object max_flow() reports {f2}, the maximum flow is {flowS}"
+      | none => verdict := .fail s!"{solver}: no observation after the additional runs"
+      if withAssign && (verdict matches .ok) then
+        match obsField c.impl "D" solver "assign2", obsField c.impl "D" solver "assign" with
+        | some a2, some a1 =>
+          if a2 != a1 then
+            verdict := .fail s!"{solver}: after {inp.rr} more run(s) of the same object assignment() reports {a2}, the canonical cut is {a1}"
+        | _, _ => verdict := .fail s!"{solver}: no assignment observation after the additional runs"
+    if !(verdict matches .ok) then break
     if withAssign then
       let some aS := (obsField c.impl "D" solver "assign").orElse fun _ => obsField c.impl "F" solver "assign"
         | verdict := .fail s!"{solver}: no assignment observation"
